@@ -398,3 +398,122 @@ cse_scenario = Contract(
     properties=("C10", "C01", "C12", "C02"), min_obligations=1, no_replay=True, note="concrete node list of 8 nodes",
 )
 CONTRACTS.append(cse_scenario)
+
+
+# =================================================================================================
+# optimizer._map_operands(op, fn) — THE list of places where one IR node reads another (liveness in constant propagation and
+# reference rewriting in both passes go through it): every operand of every kind of node is replaced by fn(operand), in its
+# own place, and nothing else on the node changes.  An operand this function does not visit would be left pointing at a node
+# CSE removed, or would not keep its producer alive.
+# The function is a case distinction over the node KINDS and is parametric in the operands, so evaluating it on the REAL function
+# for one node of every kind (all operand places filled with distinct marker objects, conditions with and without operands) with
+# a tagging fn covers its behaviour; it is still counted as a bounded stand-in.
+# _update_value (both passes): a reference to a replaced node becomes a reference to the canonical node on the SAME signal type
+# (label and metadata kept); everything else is returned as it is.  (P, unbounded.)
+# =================================================================================================
+MOQ = "dsl_compiler/src/ir/optimizer.py::_map_operands"
+
+
+class _Marker:
+    def __init__(self, name):
+        self.name = name
+
+    def __repr__(self):
+        return f"<{self.name}>"
+
+
+def _tag(v):
+    return ("mapped", v)
+
+
+def _snapshot(op):
+    d = dict(vars(op))
+    if "conditions" in d:
+        d["conditions"] = [dict(vars(c)) for c in d["conditions"]]
+    if "sources" in d:
+        d["sources"] = list(d["sources"])
+    return d
+
+
+def _map_post(a, res):
+    op, sc = a.op, a.op._scenario
+    before = sc["before"]
+    after = _snapshot(op)
+    for field, expect in sc["expect"].items():
+        if after[field] != expect(before[field]):
+            return False
+    for field in before:
+        if field in sc["expect"] or field == "_scenario":
+            continue
+        if field == "conditions":
+            for b, c in zip(before["conditions"], after["conditions"]):
+                for k in b:
+                    want = _tag(b[k]) if k in ("first_operand", "second_operand") and b[k] is not None else b[k]
+                    if c[k] != want and not (c[k] is want):
+                        return False
+            continue
+        if after[field] is not before[field] and after[field] != before[field]:
+            return False
+    return True
+
+
+map_operands = Contract(qualname=MOQ, params={"op": ty.TOpaque("node"), "fn": ty.TOpaque("fn")},
+                        ensures=[("every operand place of the node holds fn(old operand); nothing else changed", _map_post)],
+                        verify=False, properties=("C10",), note="evaluated on the real function over an enumerated box (bounded stand-in)")
+CONTRACTS.append(map_operands)
+
+
+def map_operands_arg_sets():
+    from dsl_compiler.src.ir import nodes as N
+    M = _Marker
+    out = []
+
+    def add(op, expect):
+        before = _snapshot(op)
+        op._scenario = {"before": before, "expect": expect}
+        out.append({"op": op, "fn": _tag})
+
+    one = lambda: (lambda v: _tag(v))  # noqa: E731
+    a = N.IRArith("a", "signal-A"); a.left, a.right = M("l"), M("r")
+    add(a, {"left": one(), "right": one()})
+    for conds in ([], [N.DeciderCondition(comparator=">", first_operand=M("c1l"), second_operand=M("c1r")), N.DeciderCondition(comparator="<", first_signal="signal-S", second_constant=4),
+                       N.DeciderCondition(comparator="=", first_operand=M("c3l"), second_constant=0)]):
+        d = N.IRDecider("d", "signal-A"); d.left, d.right, d.output_value, d.conditions = M("l"), M("r"), M("ov"), conds
+        add(d, {"left": one(), "right": one(), "output_value": one()})
+    w = N.IRWireMerge("w", "signal-A"); w.sources = [M("s0"), M("s1"), M("s2")]
+    add(w, {"sources": lambda old: [_tag(x) for x in old]})
+    add(N.IRMemWrite("m", M("data"), M("enable")), {"data_signal": one(), "write_enable": one()})
+    for sc_, rc_ in ((None, None), ((M("sig"), "<", 20), (M("sig2"), ">=", 80)), ((M("sig"), "<", 20), None)):
+        lw = N.IRLatchWrite("m", M("value"), M("set"), M("reset"), "sr_latch", set_condition=sc_, reset_condition=rc_)
+        add(lw, {"value": one(), "set_signal": one(), "reset_signal": one(),
+                 "set_condition": lambda old: None if old is None else (_tag(old[0]), *old[1:]), "reset_condition": lambda old: None if old is None else (_tag(old[0]), *old[1:])})
+    add(N.IREntityPropWrite("e", "enable", M("value")), {"value": one()})
+    add(N.IRPlaceEntity("e", "small-lamp", M("x"), M("y"), {"k": 1}), {"x": one(), "y": one()})
+    # kinds without operands: untouched
+    c = N.IRConst("c", "signal-A"); c.value = 5
+    add(c, {})
+    r = N.IRMemRead("r", "signal-A"); r.memory_id = "m"
+    add(r, {})
+    add(N.IRMemCreate("m", "signal-A", None, "standard"), {})
+    return out
+
+
+def _uv_post(a, res):
+    v = a.value
+    if not isinstance(v, SObj):
+        return ops.eq(res, v)
+    canonical = z3.Select(a.self.replacements.vals, v.source_id)
+    replaced = And(z3.Select(a.self.replacements.present, v.source_id), z3.Length(canonical) > 0)
+    if res is v:
+        return Not(replaced)
+    return And(replaced, isa(res, "SignalRef"), res.signal_type is v.signal_type, res.source_id == canonical, res.debug_label is v.debug_label,
+               res.debug_metadata == v.debug_metadata)  # a copy of the metadata
+
+
+for _cls in ("ConstantPropagationOptimizer", "CSEOptimizer"):
+    CONTRACTS.append(Contract(
+        qualname=f"dsl_compiler/src/ir/optimizer.py::{_cls}._update_value",
+        params={"self": ty.TObj(_cls, only=(_cls,)), "value": ty.TUnion((ty.Int, ty.TObj("SignalRef", only=("SignalRef",))))},
+        ensures=[("a reference to a replaced node becomes a reference to its canonical node on the same type; everything else is returned unchanged", _uv_post)],
+        dynamic_types={"self": {"replacements": ty.TDict(ty.Str, ty.Str)}, "value": {"debug_label": ty.TOpt(ty.Str), "debug_metadata": ty.TConcrete({}), "source_ast": ty.TConcrete(None)}},
+        properties=("C10",), min_obligations=2, no_replay=True))
